@@ -138,6 +138,81 @@ def twin_oracle(rep, rc, k):
     return a, case
 
 
+def rref_case(rng):
+    """A hidden field (or a row of a hidden table) reached through `random_reference` — the one path that
+    reloads a row from the row history instead of using the live object — and read back by formulas."""
+    v = rng.choice([2, 3])
+    target = rng.choice(["A", "A", "__H"])
+    nick = rng.choice([None, "n1"])
+    vals = [rng.choice(["7", "abc", "12", "true"]) for _ in range(2)]
+    cnt = rng.randint(1, 3)
+    how = rng.choice(["plain", "scope", "unique", "nick"])
+    to = nick if (how == "nick" and nick) else target
+    rr = f"random_reference: {to}" if how in ("plain", "nick") else (
+        f"random_reference:\n          to: {to}\n          scope: prior-and-current-iterations" if how == "scope" else
+        f"random_reference:\n          to: {to}\n          unique: true")
+    bcount = 1 if how == "unique" else rng.randint(1, 2)
+    lines = [f"- snowfakery_version: {v}", f"- object: {target}"]
+    if nick:
+        lines.append(f"  nickname: {nick}")
+    lines += [f"  count: {cnt if how != 'unique' else max(cnt, bcount)}", "  fields:", f"    __h: {vals[0]}", f"    f1: {vals[1]}",
+              "    __k: ${{child_index + 40}}",
+              "- object: B", f"  count: {bcount}", "  fields:", "    r:", f"      {rr}",
+              "    x: ${{r.__h}}", "    y: ${{r.f1}}", "    __h: ${{r.__k}}", "    z: ${{__h}}"]
+    if rng.random() < 0.5:
+        lines += ["  friends:", "    - object: C", "      fields:", "        w: ${{B.r.__h}}", "        __h:", "          reference: B"]
+    return "\n".join(lines) + "\n", rng.randint(0, 10**6)
+
+
+def unhide_text(text):
+    for a, b in (("__H", "HH"), ("__h", "hh"), ("__k", "kk")):
+        text = text.replace(a, b)
+    return text
+
+
+def rref_oracle(rep, text, k, seed):
+    """Twin oracle on YAML text with the random module seeded identically for both runs (the two recipes have
+    the same shape, so they draw the same random numbers)."""
+    import random as _random
+
+    case = {"kind": "rref", "recipe": text, "parts": [k], "seed": seed, "twin": unhide_text(text)}
+    _random.seed(seed)
+    a = common.run_recipe(text, reps=k)
+    _random.seed(seed)
+    b = common.run_recipe(case["twin"], reps=k)
+    for table, fields in a.rows:
+        if table.startswith("__") or any(f.startswith("__") for f, _ in fields):
+            rep.violation("C09:hidden-name-in-rows", f"a row of {table} with fields {[f for f, _ in fields]} reached the output stream", case)
+            return a
+    if a.outcome.split(":")[0] != b.outcome.split(":")[0]:
+        rep.violation("C09:twin-outcome", f"recipe ends {a.outcome} ({(a.error or '')[:120]}), its un-hidden twin ends {b.outcome} ({(b.error or '')[:120]})",
+                      case, b.outcome, a.outcome)
+        return a
+    if a.outcome == "ok":
+        ren = dict(RENAME, __k="kk")
+        back = {b_: a_ for a_, b_ in ren.items()}
+        rb = []
+        for table, fields in l2.canon_rows(b.rows):
+            if table in back:
+                continue
+            fs = []
+            for f, val in fields:
+                if f in back:
+                    continue
+                if isinstance(val, dict) and val.get("t") == "ref" and val["table"] in back:
+                    val = dict(val, table=back[val["table"]])
+                fs.append([f, val])
+            rb.append([table, fs])
+        ra = l2.canon_rows(a.rows)
+        if ra != rb:
+            i = 0
+            while i < min(len(ra), len(rb)) and ra[i] == rb[i]:
+                i += 1
+            rep.violation("C09:twin-differs", f"row {i}: {ra[i] if i < len(ra) else None} but the un-hidden twin (renamed names dropped) gives {rb[i] if i < len(rb) else None}",
+                          case, rb[i] if i < len(rb) else None, ra[i] if i < len(ra) else None)
+    return a
+
+
 IDENT = re.compile(r"__[A-Za-z]\w*")
 
 
@@ -276,6 +351,13 @@ def run(ctx, rep, findings):
     n = ctx.scale(350, 5000)
     nf = ctx.scale(45, 600)
     pending = []
+    for i in range(ctx.scale(60, 800)):
+        text, seed = rref_case(ctx.rng)
+        k = ctx.rng.choice([1, 2, 2])
+        a = rref_oracle(rep, text, k, seed)
+        rep.case({"recipe": text, "parts": [k], "seed": seed}, nontrivial=a.outcome == "ok" and len(a.rows) >= 2)
+        rep.count("family:random_reference-to-hidden")
+        rep.count("rref-outcome:" + a.outcome.split(":")[0])
     for i in range(n):
         rc, g = gen(ctx.rng)
         k = ctx.rng.choice([1, 1, 2])
@@ -307,5 +389,8 @@ def flush(rep, pending):
 
 def replay(case, rep):
     k = case["parts"][0]
+    if case.get("kind") == "rref":
+        rref_oracle(rep, case["recipe"], k, case["seed"])
+        return
     twin_oracle(rep, case["ast"], k)
     formats_oracle(rep, case["ast"], k)
